@@ -60,3 +60,10 @@ claim("C16",
   "For every generated layout the internalised document must be self-contained, load offline, validate exactly when the original does, and expand to the same marker-tagged content everywhere - so a reference rewritten to the wrong component, two targets merged under one name, a dangling rewritten reference or a self reference is caught. Runs under the watchdog/journal (two non-termination defects of InternalizeRefs were found and repaired under C20).",
   "Trusted: internal/fsgen (layout generator and resolver), marker-based expansion. Chains through external components are excluded by construction (open finding, witness replayed every run). Traffic verdict equivalence (requests/responses against both documents) is not yet part of the check.",
   "DESIGN.md#c16")
+HOOK_COMMITS.append("243bf17")
+
+claim("C05",
+  "property-based testing with an inverse (round-trip) oracle plus a reference evaluator: values of every schema shape serialised by an independent implementation of the OpenAPI style table into path / query / header / cookie text, then decoded (observed through the verif hook) and validated; the cell x shape x value table is enumerated completely, fresh values are sampled with rapid, native fuzzing in the thorough tier",
+  "For each cell of the style table and each shape: the decoded value must equal the value that was serialised, ValidateParameter and ValidateRequest must accept exactly when the reference schema evaluator accepts the value, an absent required parameter must be reported as missing (ErrInvalidRequired), an absent optional one accepted, and text that is no serialisation of the declared type rejected.",
+  "Trusted: internal/styleser (RFC 6570 reading for label/explode=false), internal/refschema, the exclusion of delimiter characters and empty members from string values (ambiguous serialisations). Hook: openapi3filter/verif_export.go (build tag verif). Open finding: cookie arrays/objects with explode=true.",
+  "DESIGN.md#c05")
